@@ -237,6 +237,7 @@ pub fn answer(req: &str) -> String {
         ("frombc", [x]) => fmt_opt(guarded(|| <CKCNumber as PokerCard>::from_binary_card(*x))),
         ("find", [k]) => fmt_opt(guarded(|| Five::find_in_products(*k as usize))),
         ("enum5", [a, p]) if *a < 52 && *p < 120 => enum5(*a as usize, *p as usize),
+        ("enum5b", [a]) if *a < 53 => enum5b(*a as usize),
         ("ev5", ws) if ws.len() == 5 => {
             let Some(ws) = u32s(ws) else { return "bad-request".into() };
             let arr = [ws[0], ws[1], ws[2], ws[3], ws[4]];
@@ -455,6 +456,60 @@ fn enum5(a: usize, p: usize) -> String {
     out.trim_end().to_string()
 }
 
+pub fn deck_blank() -> [u32; 53] {
+    let mut d = [0u32; 53];
+    d[..52].copy_from_slice(&layout_deck());
+    d
+}
+
+/// bulk answer: five-slot multisets over {52 cards, blank} with lowest symbol index `a`
+fn enum5b(a: usize) -> String {
+    let sym = deck_blank();
+    let mut out = String::new();
+    for b in a..53 {
+        for c in b..53 {
+            for d in c..53 {
+                for e in d..53 {
+                    let arr = [sym[a], sym[b], sym[c], sym[d], sym[e]];
+                    let h = Five::from(arr);
+                    let code = match guarded(|| h.hand_rank_value()) {
+                        None => 999999u32,
+                        Some(v) => {
+                            v as u32 * 4
+                                + 2 * guarded(|| h.hand_rank_value_validated()).is_some() as u32
+                                + guarded(|| ckc_rs::evaluate::five_cards(arr)).is_some() as u32
+                        }
+                    };
+                    out.push_str(&code.to_string());
+                    out.push(' ');
+                }
+            }
+        }
+    }
+    out.trim_end().to_string()
+}
+
+/// keys for the product search: small keys, every table key and its neighbours, powers of two, seeded
+fn find_keys(rng: &mut Rng, seeded: usize) -> Vec<u64> {
+    let mut keys: Vec<u64> = (0..4100).collect();
+    for p in ckc_rs::verif_hooks::PRODUCTS {
+        keys.extend([p as u64 - 1, p as u64, p as u64 + 1]);
+    }
+    for k in 0..64 {
+        let p = 1u64 << k;
+        keys.extend([p.wrapping_sub(1), p, p.wrapping_add(1)]);
+    }
+    keys.push(u64::MAX);
+    for _ in 0..seeded {
+        keys.push(match rng.below(3) {
+            0 => rng.below(104_553_158 + 1000),
+            1 => rng.below(1 << 32),
+            _ => rng.next(),
+        });
+    }
+    keys
+}
+
 /// words worth looking at: the 52 cards, blank, every multiples-flag combination on them,
 /// single-bit corruptions, field-boundary patterns
 pub fn structured_words() -> Vec<u32> {
@@ -519,23 +574,46 @@ pub fn cases(prop: &str, thorough: bool, seed: u64, c: &mut Cases) {
                 rng.shuffle(&mut idx);
                 c.emit("ev5/seeded-hand-seeded-order", &format!("ev5 {}", join(idx[..5].iter().map(|i| deck[*i]))));
             }
-            let mut keys: Vec<u64> = (0..4100).collect();
-            for p in ckc_rs::verif_hooks::PRODUCTS {
-                keys.extend([p as u64 - 1, p as u64, p as u64 + 1]);
-            }
-            for k in 0..64 {
-                let p = 1u64 << k;
-                keys.extend([p.wrapping_sub(1), p, p.wrapping_add(1)]);
-            }
-            keys.push(u64::MAX);
-            for _ in 0..(if thorough { 1_000_000 } else { 100_000 }) {
-                keys.push(match rng.below(3) {
-                    0 => rng.below(104_553_158 + 1000),
-                    1 => rng.below(1 << 32),
-                    _ => rng.next(),
-                });
-            }
+            let keys = find_keys(&mut rng, if thorough { 1_000_000 } else { 100_000 });
             for k in keys {
+                c.emit("find", &format!("find {k}"));
+            }
+        }
+        "C05" => {
+            for a in 0..53 {
+                c.emit("enum5b/all five-slot multisets over cards+blank with lowest symbol a", &format!("enum5b {a}"));
+            }
+            let sym = deck_blank();
+            // five slots in seeded orders with many blanks and repeats (full detail)
+            for _ in 0..(if thorough { 100_000 } else { 10_000 }) {
+                let ws: Vec<u32> = (0..5).map(|_| if rng.below(3) == 0 { 0 } else { sym[rng.below(53) as usize] }).collect();
+                c.emit("ev5/card-or-blank", &format!("ev5 {}", join(ws)));
+            }
+            for n in [6usize, 7] {
+                // structured: all blank, k cards then blanks, one duplicated card, blanks at every slot
+                let mut hands: Vec<Vec<u32>> = vec![vec![0; n]];
+                for k in 1..=n {
+                    let mut h = vec![0u32; n];
+                    for (i, slot) in h.iter_mut().enumerate().take(k) { *slot = sym[i * 7 % 52]; }
+                    hands.push(h);
+                }
+                for slot in 0..n {
+                    let mut h: Vec<u32> = (0..n).map(|i| sym[i]).collect();
+                    h[slot] = 0;
+                    hands.push(h.clone());
+                    h[slot] = h[(slot + 1) % n];
+                    hands.push(h);
+                }
+                for h in hands {
+                    c.emit(&format!("ev{n}/structured"), &format!("ev{n} {}", join(h)));
+                }
+                for _ in 0..(if thorough { 200_000 } else { 20_000 }) {
+                    let blanks = rng.below(4);
+                    let ws: Vec<u32> = (0..n).map(|_| if rng.below(n as u64) < blanks { 0 } else { sym[rng.below(52) as usize] }).collect();
+                    c.emit(&format!("ev{n}/seeded card-or-blank with repeats"), &format!("ev{n} {}", join(ws)));
+                }
+            }
+            for k in find_keys(&mut rng, if thorough { 300_000 } else { 30_000 }) {
                 c.emit("find", &format!("find {k}"));
             }
         }
@@ -658,6 +736,7 @@ pub fn sweep(prop: &str, thorough: bool, seed: u64) -> Sweep {
         "C14" => sweep_c14(seed, thorough),
         "C01" => sweep_c01(seed, thorough),
         "C13" => sweep_c13(seed, thorough),
+        "C05" => sweep_c05(seed, thorough),
         "C20" => sweep_c20(),
         _ => panic!("no sweep for {prop}"),
     }
@@ -1210,4 +1289,172 @@ fn sweep_c13(seed: u64, thorough: bool) -> Sweep {
     let w = Five::from([deck[0], deck[9], deck[23], deck[37], deck[51]]);
     s.sample(format!("AS 5S 4H 3D 2C: is_straight = {}, is_wheel = {}", w.is_straight(), w.is_wheel()));
     s
+}
+
+/// C05: no entry point panics on card-or-blank hands; a blank five is value 0 / Invalid.
+fn sweep_c05(seed: u64, thorough: bool) -> Sweep {
+    use ckc_rs::hand_rank::{HandRankClass, HandRankName};
+    let sym = deck_blank();
+    let mut total = Sweep { exhaustive: true, ..Default::default() };
+    // five slots: all multisets, canonical order and one seeded order each (all orders of the multiset in thorough
+    // are covered by sweeping ordered arrays below)
+    let five = |arr: [u32; 5], s: &mut Sweep| {
+        s.evaluations += 1;
+        let h = Five::from(arr);
+        let r = guarded(|| {
+            let (v, _) = h.hand_rank_value_and_hand();
+            let hr = h.hand_rank();
+            (v, h.hand_rank_value(), h.hand_rank_value_validated(), ckc_rs::evaluate::five_cards(arr), hr.value, hr.name, hr.class, h.hand_rank_validated().value)
+        });
+        let blank = arr.contains(&0);
+        if blank { s.nontrivial += 1; }
+        match r {
+            None => s.fail("a five-slot ranking entry point panics on a card-or-blank hand", &join(arr), "returns", "panic"),
+            Some((v, v2, vv, fc, hv, name, class, hvv)) => {
+                if blank && !(v == 0 && v2 == 0 && vv == 0 && fc == 0 && hv == 0 && hvv == 0 && name == HandRankName::Invalid && class == HandRankClass::Invalid) {
+                    s.fail("a five-slot hand holding a blank is given a real rank", &join(arr), "value 0, Invalid", &format!("{:?}", (v, v2, vv, fc, hv, name, class)));
+                }
+            }
+        }
+    };
+    let parts: Vec<Sweep> = par_ranges(53, 53, |lo, hi| {
+        let mut s = Sweep::default();
+        let mut rng = Rng::new(seed ^ (lo << 8) ^ 0xC05);
+        for a in lo as usize..hi as usize {
+            for b in a..53 {
+                for c in b..53 {
+                    for d in c..53 {
+                        for e in d..53 {
+                            let mut arr = [sym[a], sym[b], sym[c], sym[d], sym[e]];
+                            five(arr, &mut s);
+                            rng.shuffle(&mut arr);
+                            five(arr, &mut s);
+                        }
+                    }
+                }
+            }
+        }
+        s
+    });
+    for p in parts { total.merge(p); }
+    total.count("five-slot multisets over {52 cards, blank}", 4_187_106);
+    if thorough {
+        // every ordered five-slot array: 53^5
+        let parts: Vec<Sweep> = par_ranges(53 * 53, 53 * 53, |lo, hi| {
+            let mut s = Sweep::default();
+            for ab in lo as usize..hi as usize {
+                for c in 0..53 {
+                    for d in 0..53 {
+                        for e in 0..53 {
+                            five([sym[ab / 53], sym[ab % 53], sym[c], sym[d], sym[e]], &mut s);
+                        }
+                    }
+                }
+            }
+            s
+        });
+        for p in parts { total.merge(p); }
+        total.count("ordered five-slot arrays (53^5)", 418_195_493);
+    }
+    // six slots: all multisets
+    let six = |ws: [u32; 6], s: &mut Sweep| {
+        s.evaluations += 1;
+        let h = Six::from(ws);
+        if guarded(|| (h.hand_rank_value_and_hand(), h.hand_rank_value(), h.hand_rank_value_validated(), h.hand_rank())).is_none() {
+            s.fail("a six-slot ranking entry point panics on a card-or-blank hand", &join(ws), "returns", "panic");
+        }
+    };
+    let parts: Vec<Sweep> = par_ranges(53, 53, |lo, hi| {
+        let mut s = Sweep::default();
+        for a in lo as usize..hi as usize {
+            for b in a..53 { for c in b..53 { for d in c..53 { for e in d..53 { for f in e..53 {
+                six([sym[a], sym[b], sym[c], sym[d], sym[e], sym[f]], &mut s);
+            } } } } }
+        }
+        s
+    });
+    for p in parts { total.merge(p); }
+    total.count("six-slot multisets over {52 cards, blank}", 40_475_358);
+    let seven = |ws: [u32; 7], s: &mut Sweep| {
+        s.evaluations += 1;
+        let h = Seven::from(ws);
+        if guarded(|| (h.hand_rank_value_and_hand(), h.hand_rank_value(), h.hand_rank_value_validated(), h.hand_rank())).is_none() {
+            s.fail("a seven-slot ranking entry point panics on a card-or-blank hand", &join(ws), "returns", "panic");
+        }
+    };
+    if thorough {
+        let parts: Vec<Sweep> = par_ranges(53, 53, |lo, hi| {
+            let mut s = Sweep::default();
+            for a in lo as usize..hi as usize {
+                for b in a..53 { for c in b..53 { for d in c..53 { for e in d..53 { for f in e..53 { for g in f..53 {
+                    seven([sym[a], sym[b], sym[c], sym[d], sym[e], sym[f], sym[g]], &mut s);
+                } } } } } }
+            }
+            s
+        });
+        for p in parts { total.merge(p); }
+        total.count("seven-slot multisets over {52 cards, blank}", 341_149_446);
+    } else {
+        total.exhaustive = false;
+        let n = 2_000_000u64;
+        let parts: Vec<Sweep> = par_ranges(n, threads(), |lo, hi| {
+            let mut s = Sweep::default();
+            let mut rng = Rng::new(seed ^ lo ^ 0x7C05);
+            for _ in lo..hi {
+                let blanks = rng.below(5);
+                let mut ws = [0u32; 7];
+                for w in ws.iter_mut() {
+                    *w = if rng.below(7) < blanks { 0 } else { sym[rng.below(52) as usize] };
+                }
+                seven(ws, &mut s);
+            }
+            s
+        });
+        for p in parts { total.merge(p); }
+        total.count("seven-slot seeded card-or-blank hands", n);
+    }
+    // defaults
+    for (name, ok) in [
+        ("Five::default", guarded(|| Five::default().hand_rank()).map(|r| r.is_invalid())),
+        ("Six::default", guarded(|| Six::default().hand_rank()).map(|r| r.is_invalid())),
+        ("Seven::default", guarded(|| Seven::default().hand_rank()).map(|r| r.is_invalid())),
+    ] {
+        total.evaluations += 1;
+        if ok != Some(true) {
+            total.fail("ranking a default (all blank) hand", name, "Invalid rank", &format!("{ok:?}"));
+        }
+    }
+    // the public product search
+    let mut rng = Rng::new(seed ^ 0xF1D);
+    let keys = find_keys(&mut rng, if thorough { 2_000_000 } else { 200_000 });
+    for k in keys {
+        total.evaluations += 1;
+        match guarded(|| Five::find_in_products(k as usize)) {
+            Some(j) if j < 4888 => {}
+            other => total.fail("find_in_products does not return an in-range index", &k.to_string(), "index < 4888", &format!("{other:?}")),
+        }
+    }
+    if thorough {
+        let n = 1u64 << 27;
+        let bad: Vec<u64> = par_ranges(n, threads() * 4, |lo, hi| {
+            let mut v = Vec::new();
+            for k in lo..hi {
+                match guarded(|| Five::find_in_products(k as usize)) {
+                    Some(j) if j < 4888 => {}
+                    _ => if v.len() < 2 { v.push(k) },
+                }
+            }
+            v
+        }).concat();
+        total.evaluations += n;
+        total.count("find_in_products keys 0..2^27", n);
+        for k in bad {
+            total.fail("find_in_products does not return an in-range index", &k.to_string(), "index < 4888", "panic or out of range");
+        }
+    }
+    total.rule = "every five-slot multiset over {52 cards, blank} in canonical and one seeded order (all 53^5 ordered arrays in thorough), every six-slot multiset, seven-slot hands (seeded; all multisets in thorough), the three defaults, and the product search on structured + seeded keys, all under catch_unwind; non-trivial = the hand holds a blank".into();
+    total.sample(format!("AS KS QS JS BLANK -> {:?}", guarded(|| Five::from([sym[0], sym[1], sym[2], sym[3], 0]).hand_rank())));
+    total.sample(format!("Seven::default() -> {:?}", guarded(|| Seven::default().hand_rank_value())));
+    total.sample(format!("find_in_products(0) = {:?}, (47) = {:?}", guarded(|| Five::find_in_products(0)), guarded(|| Five::find_in_products(47))));
+    total
 }
